@@ -56,6 +56,8 @@ type c17Op struct {
 	Help B       `json:"help,omitempty"`
 	Ty   int     `json:"ty,omitempty"` // reg timer: -1 nil options, 0 summary, 1 histogram, 7 unknown
 	Root int     `json:"root,omitempty"` // decl: 1 = through a second root scope on the same reporter
+	Rep  int     `json:"rep,omitempty"`  // alloc / reg: index of the reporter (all on one registry)
+	Via  [][][2]B `json:"via,omitempty"` // decl: the chain of Tagged() maps (Tags = the effective tags)
 }
 
 type c17Case struct {
@@ -76,6 +78,7 @@ type c17Case struct {
 	Salt     int   `json:"salt,omitempty"`
 	Collide  bool  `json:"collide,omitempty"` // two specifications of equal bucket identity (informative)
 	Realloc  bool  `json:"realloc,omitempty"` // some series gets a second handle (informative)
+	RootTags [][2]B `json:"root_tags,omitempty"` // mode 0: ScopeOptions.Tags of the root scope(s)
 }
 
 // ---------------------------------------------------------------- environment
@@ -110,6 +113,8 @@ type c17Env struct {
 	cbObs  int64
 	cleanup func()
 	mu     sync.Mutex // the callback may be reached from several goroutines (mode 2)
+	mk     func() tp.Reporter
+	reps   []tp.Reporter // reporters built with the same options on the same registry
 }
 
 func c17Class(err error) int64 {
@@ -196,7 +201,8 @@ func c17NewEnv(c *c17Case) (*c17Env, []int64) {
 		if c.Cb == "fn" {
 			o.OnRegisterError = fn
 		}
-		e.rep = tp.NewReporter(o)
+		e.mk = func() tp.Reporter { return tp.NewReporter(o) }
+		e.rep = e.mk()
 	default:
 		c17PathSeq++
 		cfg := tp.Configuration{HandlerPath: fmt.Sprintf("/c17_%d", c17PathSeq)}
@@ -246,13 +252,27 @@ func c17NewEnv(c *c17Case) (*c17Env, []int64) {
 		case "cfgpanic":
 			cfg.OnError = "" // default: panic(err)
 		}
-		rep, err := cfg.NewReporter(co)
-		if err != nil {
-			fatal(err)
+		e.mk = func() tp.Reporter {
+			c17PathSeq++
+			cfg.HandlerPath = fmt.Sprintf("/c17_%d", c17PathSeq)
+			rep, err := cfg.NewReporter(co)
+			if err != nil {
+				fatal(err)
+			}
+			return rep
 		}
-		e.rep = rep
+		e.rep = e.mk()
 	}
+	e.reps = []tp.Reporter{e.rep}
 	return e, rb
+}
+
+// useRep makes the i-th reporter on this registry (same options) the current one.
+func (e *c17Env) useRep(i int) {
+	for len(e.reps) <= i {
+		e.reps = append(e.reps, e.mk())
+	}
+	e.rep = e.reps[i]
 }
 
 // parseLines recovers the callback log from what the "stderr" / "log"
@@ -436,8 +456,14 @@ func c17RunDirect(c *c17Case) (out c17Out) {
 			out.pred, out.fail = pred, what
 		}
 	}
+	curRep := 0
 	for oi := range c.Ops {
 		o := &c.Ops[oi]
+		if (o.Op == "alloc" || o.Op == "reg") && o.Rep != curRep {
+			curRep = o.Rep
+			e.useRep(curRep)
+			out.in = append(out.in, Ev{K: 14, I: []int64{int64(curRep)}})
+		}
 		switch o.Op {
 		case "alloc":
 			var h handle
@@ -777,6 +803,7 @@ func c17RunScopeBody(c *c17Case, prog *atomic.Value) (out c17Out) {
 	out.in = c17PreEvents(c, rb)
 	root, closer := tally.NewRootScope(tally.ScopeOptions{
 		CachedReporter:         e.rep,
+		Tags:                   c17Tags(c.RootTags),
 		Separator:              tp.DefaultSeparator,
 		SanitizeOptions:        &tp.DefaultSanitizerOpts,
 		OmitCardinalityMetrics: true,
@@ -799,13 +826,17 @@ func c17RunScopeBody(c *c17Case, prog *atomic.Value) (out c17Out) {
 			rt := root
 			if o.Root == 1 {
 				if root2 == nil {
-					root2, closer2 = tally.NewRootScope(tally.ScopeOptions{CachedReporter: e.rep, Separator: tp.DefaultSeparator,
+					root2, closer2 = tally.NewRootScope(tally.ScopeOptions{CachedReporter: e.rep, Tags: c17Tags(c.RootTags), Separator: tp.DefaultSeparator,
 						SanitizeOptions: &tp.DefaultSanitizerOpts, OmitCardinalityMetrics: true}, 0)
 				}
 				rt = root2
 			}
 			sc := rt
-			if len(o.Tags) > 0 {
+			if len(o.Via) > 0 {
+				for _, layer := range o.Via {
+					sc = sc.Tagged(c17Tags(layer))
+				}
+			} else if len(o.Tags) > 0 {
 				sc = rt.Tagged(c17Tags(o.Tags))
 			}
 			in := Ev{K: 1, I: []int64{int64(o.U)}, S: c17NameTags(o.Name, o.Tags)}
@@ -1747,11 +1778,28 @@ func c17GenScope(r *Rng, i int) c17Case {
 			fam{name: c17Amb[j].name, u: u, keys: c17Amb[j].keys, spec: spec})
 		nf += 2
 	}
+	// the root scope carries tags of its own, and Tagged children override
+	// them / each other (rightmost wins): separate series per effective values
+	if r.Chance(30) {
+		c.RootTags = [][2]B{{"env", "prod"}}
+		if r.Bool() {
+			c.RootTags = [][2]B{{"dc", "a"}, {"env", "prod"}}
+		}
+		for fi := range fams {
+			if r.Chance(65) {
+				ks := append([]string{"env"}, fams[fi].keys...)
+				sort.Strings(ks)
+				fams[fi].keys = ks
+			}
+		}
+	}
+	chains := len(c.RootTags) > 0 || r.Chance(25)
 	// objects: per family 1..3 distinct value tuples
 	type obj struct {
 		f    int
 		tags [][2]B
 		root int
+		via  [][][2]B
 	}
 	var pool []obj
 	seen := map[string]bool{}
@@ -1760,7 +1808,29 @@ func c17GenScope(r *Rng, i int) c17Case {
 	second := !inconsistent && r.Chance(30)
 	for fi, f := range fams {
 		for k := r.Range(1, 3); k > 0; k-- {
-			t := r.c17Tags(f.keys, c17ValsScope)
+			own := r.c17Tags(f.keys, c17ValsScope)
+			for i := range own {
+				if own[i][0] == "env" {
+					own[i][1] = B([]string{"canary", "staging", "prod", "v1"}[r.Intn(4)])
+				}
+			}
+			t := c17MergeTags(c.RootTags, own)
+			var via [][][2]B
+			if chains && len(own) > 0 {
+				via = [][][2]B{own}
+				if r.Bool() {
+					// an intermediate child whose values the last Tagged overrides
+					var mid [][2]B
+					for _, kv := range own {
+						if r.Bool() {
+							mid = append(mid, [2]B{kv[0], B(c17ValsScope[r.Intn(len(c17ValsScope))])})
+						}
+					}
+					if len(mid) > 0 {
+						via = [][][2]B{mid, own}
+					}
+				}
+			}
 			tk := f.u // tally keeps one histogram per (scope, name), value or duration
 			if tk == 5 {
 				tk = 4
@@ -1770,9 +1840,9 @@ func c17GenScope(r *Rng, i int) c17Case {
 				continue
 			}
 			seen[id] = true
-			pool = append(pool, obj{fi, t, 0})
+			pool = append(pool, obj{fi, t, 0, via})
 			if second && r.Chance(60) {
-				pool = append(pool, obj{fi, t, 1})
+				pool = append(pool, obj{fi, t, 1, via})
 				c.Realloc = true
 			}
 		}
@@ -1789,7 +1859,7 @@ func c17GenScope(r *Rng, i int) c17Case {
 			ob := pool[k]
 			pool = append(pool[:k], pool[k+1:]...)
 			f := fams[ob.f]
-			c.Ops = append(c.Ops, c17Op{Op: "decl", U: f.u, Name: B(f.name), Tags: ob.tags, Spec: f.spec, Root: ob.root})
+			c.Ops = append(c.Ops, c17Op{Op: "decl", U: f.u, Name: B(f.name), Tags: ob.tags, Spec: f.spec, Root: ob.root, Via: ob.via})
 			declared = append(declared, ob)
 			continue
 		}
@@ -2051,6 +2121,71 @@ func c17GenRealloc(r *Rng, i int) c17Case {
 	return c
 }
 
+// c17MergeTags: rightmost wins, sorted by key (what Tagged() must yield).
+func c17MergeTags(layers ...[][2]B) [][2]B {
+	m := map[B]B{}
+	for _, l := range layers {
+		for _, kv := range l {
+			m[kv[0]] = kv[1]
+		}
+	}
+	out := make([][2]B, 0, len(m))
+	for k, v := range m {
+		out = append(out, [2]B{k, v})
+	}
+	sort.Slice(out, func(i, j int) bool { return out[i][0] < out[j][0] })
+	return out
+}
+
+// c17TwoRep: two reporters built with the same options on ONE registry (the
+// default registerer in real life; a reporter re-created on its registry).
+// Reporter 0 first-uses kind a under a name, reporter 1 kind b under the same
+// name and tag keys (its own bucket specification when otherSpec), both report,
+// reporter 0 uses the name again.  Reporter 1's registration is rejected by
+// the registry (AlreadyRegistered when help and keys coincide): callback,
+// no-op metric - never the other reporter's vector with its bounds.
+func c17TwoRep(a, b int, otherSpec, dur bool, timerType int, mask int64, cb string) c17Case {
+	c := c17Case{Mode: 1, TimerType: timerType, Cb: cb, CbMask: mask, DefBMode: 1,
+		DefB: []int64{fbits(0.01), fbits(0.1)}, Wrap: cb == "fn" || cb == "nil"}
+	tg := [][2]B{{"k", "v"}}
+	hu := 4
+	s1 := []int64{fbits(0.01), fbits(0.1)}
+	s2 := []int64{fbits(0.02), fbits(0.05), fbits(0.2)}
+	if dur {
+		hu = 5
+		s1 = []int64{10e6, 100e6}
+		s2 = []int64{20e6, 50e6, 200e6}
+	}
+	if !otherSpec {
+		s2 = s1
+	}
+	mk := func(rep, u int, spec []int64) c17Op {
+		op := c17Op{Op: "alloc", U: u, Name: "x", Tags: tg, Rep: rep}
+		if u == 4 {
+			op.U, op.Spec = hu, spec
+		}
+		return op
+	}
+	use := func(h, u int, spec []int64, k int) c17Op {
+		switch u {
+		case 1:
+			return c17Op{Op: "rep", O: h, V: int64(3 + h)}
+		case 2:
+			return c17Op{Op: "rep", O: h, V: fbits(1.5 + float64(h))}
+		case 3:
+			return c17Op{Op: "rep", O: h, V: 60e6}
+		}
+		return c17Op{Op: "rep", O: h, Up: spec[k%len(spec)], N: int64(1 + h), Dur: dur}
+	}
+	c.Ops = []c17Op{
+		mk(0, a, s1), use(0, a, s1, 0),
+		mk(1, b, s2), use(1, b, s2, 1), use(1, b, s2, 0),
+		mk(0, a, s1), use(2, a, s1, 1), use(0, a, s1, 1),
+		mk(1, b, s2), use(3, b, s2, 2),
+	}
+	return c
+}
+
 func c17GenDirect(r *Rng, i int) c17Case {
 	c := c17Case{Mode: 1, TimerType: []int{0, 1, 0, 1, 7}[r.Intn(5)], Cb: "fn", Wrap: r.Bool()}
 	switch r.Intn(10) {
@@ -2105,6 +2240,7 @@ func c17GenDirect(r *Rng, i int) c17Case {
 			c.Pre = append(c.Pre, f)
 		}
 	}
+	tworep := r.Chance(30) // two reporters on the one registry
 	nops := r.Range(2, 14)
 	var hk []int // kind of each handle
 	var hspec [][]int64
@@ -2125,6 +2261,9 @@ func c17GenDirect(r *Rng, i int) c17Case {
 				}
 			} else if u == 5 {
 				op.Spec = c17GenDSpec(r)
+			}
+			if tworep {
+				op.Rep = r.Intn(2)
 			}
 			c.Ops = append(c.Ops, op)
 			hk = append(hk, u)
@@ -2171,6 +2310,9 @@ func c17GenDirect(r *Rng, i int) c17Case {
 				if op.Ty >= 0 && r.Bool() {
 					op.Spec = vspec
 				}
+			}
+			if tworep {
+				op.Rep = r.Intn(2)
 			}
 			c.Ops = append(c.Ops, op)
 		}
@@ -2403,6 +2545,37 @@ func init() {
 			c := c17GenDirect(ctx.R, i)
 			one(&c, "direct")
 		}
+		// two reporters on one registry: every pair of kinds, same / other bucket
+		// specification, value / duration bounds, both timer flavours, callbacks
+		ntr := 0
+		for a := 1; a <= 4; a++ {
+			for b := 1; b <= 4; b++ {
+				for v := 0; v < 4; v++ {
+					if (a != 4 && b != 4) && v > 0 {
+						continue // the specification variants only matter for histograms
+					}
+					for tt := 0; tt < 2; tt++ {
+						for _, cb := range []string{"fn", "fn-panic", "fn-mask", "nil", "cfgfn", "none"} {
+							m, k := int64(0), cb
+							switch cb {
+							case "fn-panic":
+								m, k = -1, "fn"
+							case "fn-mask":
+								m, k = int64(1+ctx.R.Intn(3)), "fn"
+							case "nil":
+								m = -1
+							}
+							c := c17TwoRep(a, b, v&1 == 1, v&2 == 2, tt, m, k)
+							toCoq = (ntr+int(ctx.Seed))%2 == 0
+							ntr++
+							one(&c, "tworep")
+						}
+					}
+				}
+			}
+		}
+		toCoq = true
+		ctx.Res.Extra["two_reporter_histories"] = ntr
 		// second (third ...) handles on existing series, nothing conflicting
 		for i, n := 0, ctx.N(600, 15000); i < n; i++ {
 			c := c17GenRealloc(ctx.R, i)
